@@ -1,6 +1,15 @@
 #!/bin/bash
-# every seeded change against every registered check (3 at a time); result table in /tmp/mx/matrix.txt
+# seeded changes against their own check and the neighbouring checks (3 at a time);
+# result in /tmp/mx/matrix.txt; summarised into seeded/RESULTS.md by tools/matrix_report.py
 cd /verif
-PROPS=$(python3 -c "import json;print(' '.join(c['property_id'] for c in json.load(open('MANIFEST.json'))['checks']))")
-ls seeded | grep -E '^C[0-9]+-m[0-9]+$' | xargs -P 3 -I{} tools/matrix.sh {} $PROPS > /tmp/mx/matrix.txt 2>&1
+CORE="C01 C02 C03 C04 C05 C06 C07 C08 C19 C15"
+run() {
+  s=$1; own=${s%-*}
+  case " $CORE " in
+    *" $own "*) tools/matrix.sh $s $CORE ;;
+    *) tools/matrix.sh $s $own C09 C18 ;;
+  esac
+}
+export -f run
+ls seeded | grep -E '^C[0-9]+-m[0-9]+$' | xargs -P 3 -I{} bash -c 'run {}' > /tmp/mx/matrix.txt 2>&1
 echo done >> /tmp/mx/matrix.txt
